@@ -125,8 +125,12 @@ def check(run: Run) -> None:
                         probs.append({"what": "layout / field tables", "observed": repr(sig_of(T))[:400], "expected": repr(sig_of(R))[:400]})
                     if bool(T.__compiled__) != bool(R.__compiled__):
                         probs.append({"what": "__compiled__", "observed": T.__compiled__, "expected": R.__compiled__})
-                    for d in datas:
-                        a, b = structs.parse(cs, "main", d, 0), structs.parse(ref_cs, "main", d, 0)
+                    elif T.__compiled__ and getattr(T._read.__func__, "__source__", None) != getattr(R._read.__func__, "__source__", None):
+                        # the reader generated at the last commit is the one a one-shot definition gets (same statements: same seeks, blocks, formats)
+                        probs.append({"what": "generated reader", "observed": (getattr(T._read.__func__, "__source__", "") or "")[:600], "expected": (getattr(R._read.__func__, "__source__", "") or "")[:600]})
+                    for d in datas + [b"\xee" + datas[0], b"\xee\xee\xee" + datas[-1]]:
+                        at = len(d) - len(datas[0]) if d.startswith(b"\xee") and len(d) - len(datas[0]) in (1,) else (3 if d.startswith(b"\xee\xee\xee") else 0)
+                        a, b = structs.parse(cs, "main", d, at), structs.parse(ref_cs, "main", d, at)
                         try:
                             ka = ("ok", structs.py_value(a[1], T), a[2], dict(a[1]._sizes)) if a[0] == "ok" else ("err", type(a[1]).__name__)
                             kb = ("ok", structs.py_value(b[1], R), b[2], dict(b[1]._sizes)) if b[0] == "ok" else ("err", type(b[1]).__name__)
@@ -141,7 +145,7 @@ def check(run: Run) -> None:
                                 continue
                             if da != db:
                                 probs.append({"what": "dumps", "data": d.hex(), "observed": da.hex(), "expected": db.hex()})
-                            if bool(a[1]) != bool(b[1]) or (a[1] == T(d)) != (b[1] == R(d)):   # (a NaN field makes == false in both)
+                            if at == 0 and (bool(a[1]) != bool(b[1]) or (a[1] == T(d)) != (b[1] == R(d))):   # (a NaN field makes == false in both)
                                 probs.append({"what": "bool / == of parsed instances", "observed": "differs", "expected": "as the one-shot class"})
                     try:
                         if structs.py_value(T(), T) != structs.py_value(R(), R) or T().dumps() != R().dumps():
@@ -172,6 +176,62 @@ def check(run: Run) -> None:
                     failures += 1
                     run.report("C18/self-reference", {"definition": "struct node { uint8 v; node *next; uint16 w; };", "load_kwargs": {"compiled": compiled, "align": align}, "cstruct_kwargs": {"pointer": ptr},
                                "ops": [{"op": "self-referential vs plain pointer", "observed": repr((sa, pa))[:300], "expected": repr((sb, pb))[:300]}]})
+
+    # recorded finding: a structure that contains an array of itself, aligned mode (the array type is made while the structure is still empty)
+    n_oracle += 1
+    cs_s = structs.load("struct B { uint32 v; uint8 n; };\nstruct ref { uint32 v; uint8 n; B kids[n]; };\nstruct A { uint32 v; uint8 n; A kids[n]; };", compiled=False, align=True)
+    la, lr = [f.offset for f in cs_s.A.__fields__], [f.offset for f in cs_s.ref.__fields__]
+    if la != lr:
+        failures += 1
+        run.report("C18/self-by-value-alignment" if (la, lr) == ([0, 4, 5], [0, 4, 8]) else "C18/self-reference",
+                   {"definition": "struct A { uint32 v; uint8 n; A kids[n]; }; (align=True) against struct ref { uint32 v; uint8 n; B kids[n]; } with B = { uint32 v; uint8 n; }",
+                    "ops": [{"op": "layout", "observed": repr(la), "expected": repr(lr)}]})
+
+    # a REJECTED extension leaves nothing behind: the class is what it was, and a valid extension afterwards works
+    def _state(T):
+        return ([(f._name, f.type.__name__, f.bits, f.offset) for f in T.__fields__], T.size, list(T.fields), bool(T.__updating__))
+
+    for compiled in (False, True):
+        for how in ("add_field duplicate", "add_field straddle", "start_update duplicate", "load unknown type"):
+            n_oracle += 1
+            cs0 = structs.load("struct T { uint8 a; uint16 b : 12; };", compiled=compiled)
+            T = cs0.T
+            before = _state(T)
+            probs = []
+            try:
+                if how == "add_field duplicate":
+                    T.add_field("a", cs0.uint16)
+                elif how == "add_field straddle":
+                    T.add_field("c", cs0.uint16, bits=9)
+                elif how == "start_update duplicate":
+                    with T.start_update():
+                        T.add_field("x", cs0.uint8)
+                        T.add_field("a", cs0.uint8)
+                else:
+                    cs0.load("struct A { uint8 a; unknown_t b; };", compiled=compiled)
+                probs.append("the invalid extension was accepted")
+            except Exception:  # noqa: BLE001
+                pass
+            if how == "load unknown type":
+                try:
+                    cs0.load("struct A { uint8 a; uint8 b; };", compiled=compiled)
+                    if len(cs0.A) != 2:
+                        probs.append(f"the corrected definition of A has size {len(cs0.A)}")
+                except Exception as e:  # noqa: BLE001
+                    probs.append(f"the corrected definition of A is rejected after the failed one: {type(e).__name__}: {e}")
+            else:
+                if _state(T) != before:
+                    probs.append(f"class changed by the rejected extension: {_state(T)} (was {before})")
+                try:
+                    T.add_field("z", cs0.uint8)
+                    if "z" not in T.fields or T.size != before[1] + 1:
+                        probs.append(f"a valid add_field afterwards gave fields {list(T.fields)} size {T.size}")
+                except Exception as e:  # noqa: BLE001
+                    probs.append(f"a valid add_field afterwards raised {type(e).__name__}: {e}")
+            if probs:
+                failures += 1
+                run.report("C18/rejected-extension", {"definition": "struct T { uint8 a; uint16 b : 12; };", "load_kwargs": {"compiled": compiled, "align": False},
+                           "ops": [{"op": how, "observed": probs, "expected": "the rejected extension leaves the class (and the type table) as it was"}]})
 
     mism = run_items(run, items)
     report_unexplained(run, mism, explained, "corr_commit (the incrementally built class vs the model of the final field list)")
